@@ -6,8 +6,8 @@ CFG = {
     "signatures": {},
     "model_args": "-prop C01",
     "rule": "exhaustive: every history over the alphabet Put k (4 keys) | Delete k | DeleteMin | DeleteMax | DeleteAll up to the "
-            "length bound x {BST, AVL, Red-Black} x {ascending, reverse} comparators (plus a difference-valued comparator and a "
-            "non-antisymmetric preorder on shorter histories); every prefix is a case; the first time an implementation reaches a state "
+            "length bound x {BST, AVL, Red-Black} x {ascending, reverse, a-b, b-a, 3*(a-b)} comparators (the difference-valued ones return "
+            "magnitudes other than 1: only the sign may be used; plus a non-antisymmetric preorder on shorter histories); every prefix is a case; the first time an implementation reaches a state "
             "it gets the full battery (Size IsEmpty Height Min Max All, Get/Floor/Ceiling/Rank on present, absent and boundary keys, "
             "Select -1..n+1, Range/RangeSize on all ordered and inverted probe pairs, the 9 traversal orders, early-exit traversals, "
             "Any/All/First/Select/PartitionMatch with 8 predicates, Equal against equal / differing / other-implementation siblings); "
